@@ -283,5 +283,18 @@ def setUpnpValue (tb : Table) (row : TypeRow) (sc : Schema F) (c : Cell F) (s : 
   | .error .valueError => (.err, .ok)
   | .error e => (c, .raised e)
 
+/-! ### the value cell of `UpnpAction.Argument` -/
+
+/-- `arg.value = v`: validated against the related state variable's schema, then stored -/
+def argSetValue (sc : Schema F) (c : Val F) (v : Val F) : Val F × SetRes :=
+  if sc.check fo v then (v, .ok) else (c, .upnpValueError)
+
+/-- `arg.upnp_value = s`: the converted value is stored WITHOUT validation (this setter decodes what a
+    device answered); a conversion error propagates -/
+def argSetUpnpValue (tb : Table) (row : TypeRow) (c : Val F) (s : Str) : Val F × SetRes :=
+  match coercePython fo tb row s with
+  | .ok v => (v, .ok)
+  | .error e => (c, .raised e)
+
 end
 end Upnp.C08
